@@ -113,6 +113,36 @@ def make(targets, jobs=16):
     return p.returncode == 0, p.stdout
 
 
+FORBIDDEN = re.compile(r"\b(Admitted|admit|Axiom|Axioms|Parameter|Parameters|Conjecture|Admit Obligations|bypass_check|Unset Guard Checking|Unset Positivity Checking|Unset Universe Checking|type-in-type|impredicative-set|native_compute)\b")
+
+
+def strip_comments(text):
+    out, depth, i = [], 0, 0
+    while i < len(text):
+        if text.startswith("(*", i):
+            depth += 1
+            i += 2
+        elif text.startswith("*)", i) and depth:
+            depth -= 1
+            i += 2
+        else:
+            if depth == 0:
+                out.append(text[i])
+            i += 1
+    return "".join(out)
+
+
+def audit():
+    """grep the development (comments stripped) for anything that would weaken the proofs"""
+    hits = []
+    for rel in all_v_files():
+        txt = strip_comments(open(os.path.join(ROOT, rel)).read())
+        txt = re.sub(r'"[^"]*"', '""', txt)
+        for m in FORBIDDEN.finditer(txt):
+            hits.append("%s: %s" % (rel, m.group(1)))
+    return hits
+
+
 def failed_obligations(log):
     """map 'File "./coq/Proofs/X.v", line N' error locations to the enclosing lemma names"""
     out = []
@@ -359,6 +389,8 @@ def run_check(mod, tier, seed, replay=None):
                 obl = [dict(file="?", line=0, obligation=None, error=log[-1500:])]
             for o in obl:
                 out.failures.append(dict(kind="proof", detail=o))
+        for h in audit():
+            out.failures.append(dict(kind="audit", detail=h))
         props = compile_props(pid, getattr(mod, "EXTRA_PROP_FILES", ()))
         if not props["ok"] and ok:
             out.failures.append(dict(kind="proof", detail=dict(file="coq/Props/%s.v" % pid,
